@@ -741,6 +741,20 @@ func (x *VC) evCall(e *SExpr, env *SEnv) *Val {
 				return &Val{K: KScalar, T: "(bv2nat " + v.T + ")", S: "Int", GT: types.Typ[types.UntypedInt]}
 			}
 			return &Val{K: KScalar, T: v.T, S: "Int", GT: types.Typ[types.UntypedInt]}
+		case "box":
+			// box(x): the interface value holding the scalar x (as Go boxes it at an assignment to interface{})
+			v := x.ev(args[0], env)
+			if v.Lit != nil {
+				v = &Val{K: KScalar, T: x.ilit(v.Lit.Int64()), S: x.idxSort(), GT: tInt}
+			}
+			if v.K != KScalar || v.GT == nil || x.sortOf(v.GT) == "" {
+				x.specFail(e, "box of a non-scalar")
+			}
+			if _, isB := v.GT.Underlying().(*types.Basic); !isB {
+				return v // pointers, maps, interfaces are their own box
+			}
+			bx, _ := x.boxFns(v.GT)
+			return &Val{K: KScalar, T: "(" + bx + " " + v.T + ")", S: "Int", GT: types.NewInterfaceType(nil, nil)}
 		case "deref":
 			// value stored behind a pointer to a scalar
 			v := x.ev(args[0], env)
